@@ -152,7 +152,7 @@ class ValidRange(Job):
 
 
 def jobs(tier):
-    N = 4 if tier == "quick" else 8
+    N = 6 if tier == "quick" else 16
     out = []
     for n in range(0, N + 1):
         for suspect in (False, True):
@@ -163,7 +163,7 @@ def jobs(tier):
         for length in (0, 1, 3):
             out.append(GrossRangeBadSpan(which, length))
     for kind in ("float64", "datetime64"):
-        for n in range(0, (3 if tier == "quick" else 6) + 1):
+        for n in range(0, (4 if tier == "quick" else 10) + 1):
             for si in (True, False):
                 for ei in (True, False):
                     out.append(ValidRange(n, kind, si, ei))
@@ -185,7 +185,7 @@ ASSUMPTIONS = ["environment model of numpy.ma (symex/symnp.py) validated per pat
 
 
 def bounds(tier):
-    return {"series_length": "0..4" if tier == "quick" else "0..8", "valid_range_length": "0..3" if tier == "quick" else "0..6",
+    return {"series_length": "0..6" if tier == "quick" else "0..16", "valid_range_length": "0..4" if tier == "quick" else "0..10",
             "spans": "all four numbers symbolic, any order", "inclusivity": "all 4 settings enumerated",
             "dtypes": ["float64", "datetime64[ns]"]}
 
@@ -193,7 +193,7 @@ def bounds(tier):
 LEVEL_TEXT = ("bounded symbolic model checking: the real gross_range_test / valid_range_test source is executed on symbolic "
               "series (every value, NaN placement and span relation at once) and z3 proves flag = interval-membership oracle "
               "on every path; counterexamples are replayed on the real numpy stack")
-LEVEL_NOTE = "bounds: n<=4 (quick) / 6 (thorough), grid G; numpy.ma is an environment model validated by per-path witnesses"
+LEVEL_NOTE = "bounds: n<=6 (quick) / 16 (thorough), grid G; numpy.ma is an environment model validated by per-path witnesses"
 TECHNIQUE = "symbolic execution of the real Python source over a modelled numpy + z3 (SMT, QF_LRA)"
 
 
